@@ -32,7 +32,7 @@ import ast
 import copy
 import itertools
 
-MAX_BODY = 80
+MAX_BODY = 250
 MAX_DEPTH = 5
 
 # Functions the rules know by role and analyse as units of their own (their call sites are
@@ -323,7 +323,7 @@ def find_helpers(repo):
         body = node.body
         if body and isinstance(body[0], ast.Expr) and isinstance(body[0].value, ast.Constant) and isinstance(body[0].value.value, str):
             body = body[1:]
-        if not body or len(list(ast.walk(node))) > 1500 or sum(1 for n in ast.walk(node) if isinstance(n, ast.stmt)) > MAX_BODY:
+        if not body or len(list(ast.walk(node))) > 8000 or sum(1 for n in ast.walk(node) if isinstance(n, ast.stmt)) > MAX_BODY:
             continue
         bad = False
         is_gen = any(isinstance(n, (ast.Yield, ast.YieldFrom)) for n in ast.walk(node))
@@ -335,7 +335,11 @@ def find_helpers(repo):
             if isinstance(n, (ast.Await, ast.Global, ast.Nonlocal, ast.FunctionDef,
                               ast.AsyncFunctionDef, ast.ClassDef, ast.NamedExpr)) or (isinstance(n, (ast.Yield, ast.YieldFrom)) and not is_gen):
                 bad = True
-            elif isinstance(n, ast.Name) and n.id in ('super', '__class__', 'locals', 'vars', 'globals', 'eval', 'exec'):
+            elif isinstance(n, ast.Name) and n.id in ('super', '__class__', 'locals', 'vars', 'globals'):
+                bad = True
+            elif isinstance(n, ast.Call) and isinstance(n.func, ast.Name) and n.func.id in ('eval', 'exec') and len(n.args) < 2:
+                bad = True            # runs in the helper's own namespace
+            elif isinstance(n, ast.Name) and n.id in ('eval', 'exec') and not any(isinstance(c_, ast.Call) and c_.func is n for c_ in ast.walk(node)):
                 bad = True
             elif isinstance(n, ast.Call):
                 f = n.func
